@@ -15,7 +15,7 @@ def one(d):
     p = m['property']
     res = {}
     for tier in ('quick', 'thorough'):
-        out = subprocess.run([V + '/tools/seedverify.py', p, d, '--tier', tier], stdout=subprocess.PIPE, stderr=subprocess.STDOUT, text=True).stdout
+        out = subprocess.run([V + '/tools/seedverify.py', p, d, '--tier', tier, '--fast'], stdout=subprocess.PIPE, stderr=subprocess.STDOUT, text=True).stdout
         i = out.find('{\n "property"')
         try:
             r = json.loads(out[i:]); line = r['checks'][p]
